@@ -24,16 +24,17 @@ fn c06_compute_distance() {
     kani::cover!(true, "end of harness reached");
 }
 
-/// The same facts for widths up to 256 columns (thorough tier).
+/// The endpoint facts for widths up to 2^32 columns (without the comparison against a second
+/// division, which is what makes the query above expensive).
 #[kani::proof]
-fn c06_compute_distance_256() {
+fn c06_compute_distance_wide() {
     let (n, d): (usize, usize) = (kani::any(), kani::any());
-    kani::assume(d <= 256 && n <= d);
+    kani::assume(d <= 1 << 32 && n <= d);
     let r = compute_distance(n as f64, d as f64);
     assert!(r >= 0.0 && r <= 1.0, "normalised distance lies in [0, 1]");
     assert!((r == 0.0) == (n == 0), "distance is 0 exactly when no changed token was counted");
     assert!((r == 1.0) == (n == d && d > 0), "distance is 1 exactly when everything changed");
-    kani::cover!(n == 1 && d == 256, "one column out of 256");
+    kani::cover!(n == 1 && d == 1 << 32, "one column out of 2^32");
     kani::cover!(true, "end of harness reached");
 }
 
